@@ -5,12 +5,13 @@ V = os.path.dirname(os.path.dirname(os.path.abspath(__file__)))
 rows = []
 for p in sorted(glob.glob(os.path.join(V, "seeded", "*", "meta.json"))):
     m = json.load(open(p))
-    rows.append("| `%s` | %s | %s | %s |" % (m["id"], m["breaks_property"], m["needs_to_manifest"].replace("|", "/").replace("\n", " ")[:160],
-                                            m["detected_by"].replace("|", "/").replace("\n", " ")[:260]))
+    rows.append("| `%s` | %s | %s | %s |" % (m["id"], m["breaks_property"], m["needs_to_manifest"].replace("|", "/").replace("\n", " ")[:200],
+                                            m["detected_by"].replace("|", "/").replace("\n", " ")[:420]))
 sec = ("## 11. Seeded changes and the checks that catch them\n\n"
        "Each change was written by a fresh sub-agent that saw only the property text and a scratch worktree, and was kept after I confirmed in /repo's "
        "working tree that it applies, that the 425 baseline tests still pass with it, and that its demonstration fails with it and passes without "
-       "(`tools/try_seed.sh`). `patch.diff`, `demo.py`, `meta.json` are in `/verif/seeded/<id>/`. %d changes; \"missed before\" marks the ones that "
+       "(`tools/try_seed.sh`; the 39 changes of round 3 were confirmed the same way in a scratch worktree of /repo, `tools/try_seed_wt.sh`, which leaves /repo untouched and lets "
+       "several trials run side by side). `patch.diff`, `demo.py`, `meta.json` are in `/verif/seeded/<id>/`. %d changes; \"missed before\" marks the ones that "
        "made the framework grow.\n\n| id | property | needs, to manifest | caught by |\n|---|---|---|---|\n" % len(rows)) + "\n".join(rows) + "\n"
 d = open(os.path.join(V, "DESIGN.md")).read()
 if "## 11. Seeded changes and the checks that catch them" in d:
